@@ -830,3 +830,55 @@ def c07_function_end(R):
                         except Exception as e:
                             print(src); print('wasmtime rejects the emitted module:', str(e)[:200]); print('REPLAY-CONFIRMED')
                         """, src=src))
+
+
+@family("C06.chain", props=["C06"], functions=[GW + "::GenerateWasmVisitor.v_BinaryInstruction", "nsl.VM::ExecutionContext.__Execute"],
+        assumptions=["wasmsem (see C06.sem); inputs in the signed 32-bit range, no division by zero"])
+def c06_chain(R):
+    """Two chained integer instructions: the module's result equals the VM's result as a 32-bit value."""
+    ir = IR()
+    # A chain of two instructions: the simulation relation of the single steps is "wasm local == VM value wrapped to 32 bits".  It is carried by
+    # + - * (ring homomorphism) but NOT by / < > == when the VM's intermediate value has left the 32-bit range -- the VM computes with
+    # unbounded integers.  (KNOWN FINDING D24 on the pinned tree.)
+    for second in ("DIV", "CMP_LT"):
+        def run_chain(ctx, second=second):
+            f, bb = ir_c.fresh_function()
+            v0, v1, v2 = ir_c.val(bb, T("i")), ir_c.val(bb, T("i")), ir_c.val(bb, T("i"))
+            m = bb.AddInstruction(ir.BinaryInstruction(ir.OpCode.MUL, T("i"), v0, v1))
+            d = bb.AddInstruction(ir.BinaryInstruction(ir.OpCode[second], T("i"), m, v2))
+            g, vis, gctx = new_gen()
+            gctx.OnEnterFunction("f")
+            gctx.SetReferenceToLocalMap({v0.Reference: 0, v1.Reference: 1, v2.Reference: 2, m.Reference: 3, d.Reference: 4})
+            a, b, c = ctx.int("a"), ctx.int("b"), ctx.int("c")
+            for x in (a, b, c):
+                ctx.assume(irsem.in_i32(x.t))
+            ctx.assume(c != 0)
+            vis.v_Generic(m, gctx)
+            vis.v_Generic(d, gctx)
+            locs, stack, ret = run_wasm(emitted(gctx), [a.t, b.t, c.t, None, None], [I32] * 5)
+            prod = a.t * b.t
+            ctx.assume(z3.Not(z3.And(wrap32(prod) == -(2 ** 31), c.t == -1)))
+            want = irsem.binary(second, prod, c.t, True)
+            return [("agrees-with-VM", locs[4] == wrap32(want), "the VM computes the intermediate product with unbounded integers, the module wraps it to 32 bits")]
+
+        def replay_chain(model, clause, second=second):
+            a, b, c = int(model.get("a", 65536)), int(model.get("b", 65536)), int(model.get("c", 2))
+            return script("""
+                import io, contextlib
+                from nsl import Compiler, LinearIR, VM
+                import wasmtime
+                src = 'export function f(int a, int b, int c) -> int { return ((a * b) %s c); }' % {{op}}
+                with contextlib.redirect_stdout(io.StringIO()):
+                    r = Compiler.Compiler().Compile(src, {'wasm': True})
+                out = io.BytesIO(); r.WasmModule.WriteTo(out)
+                l = LinearIR.Linker(); l.AddModule(r.IRModule)
+                a, b, c = {{a}}, {{b}}, {{c}}
+                want = VM.VirtualMachine(l.Link()).Invoke('f', a=a, b=b, c=c)
+                st = wasmtime.Store(); inst = wasmtime.Instance(st, wasmtime.Module(st.engine, out.getvalue()), [])
+                got = inst.exports(st)['f'](st, a, b, c)
+                w32 = ((want + 2**31) % 2**32) - 2**31
+                print(src, 'f(%d, %d, %d): VM' % (a, b, c), want, '(as 32 bits: %d)' % w32, 'wasm', got)
+                if got != w32: print('REPLAY-CONFIRMED')
+                """, op="/" if second == "DIV" else "<", a=a, b=b, c=c)
+
+        verify(R, "C06.sem.chain", GW + "::GenerateWasmVisitor.v_BinaryInstruction", run_chain, replay_chain, label=f"MUL;{second}")
